@@ -96,8 +96,67 @@ pub fn run(o: &Opts, deck: &str) -> String {
             p.next();
         }
     }
+    // trees holding an information set with two or more sampled nodes (a Bucket recalls 16 edges, so these are lines
+    // deeper than that; about one solver tree in 6000 under a fresh profile).  External-sampling trees built through
+    // the public API exactly as Blueprint::tree does, except that the opponent's single sampled action is chosen here
+    // to keep the hand going: the estimator under test does not depend on how that action was drawn.
+    let want = if o.thorough() { 80 } else { 12 };
+    let tries = if o.thorough() { 100_000 } else { 20_000 };
+    let mut multi = 0u64;
+    let mut tried = 0u64;
+    let mut rng = Rng::new(o.seed, 8);
+    while multi < want && tried < tries {
+        tried += 1;
+        let mut profile = Profile::default();
+        if tried % 2 == 0 {
+            profile.next(); // the other traverser
+        }
+        let picks: Vec<u64> = (0..64).map(|_| rng.next()).collect();
+        let (members, who) = match catch(|| find_group(&picks)) {
+            Some(Some(x)) => x,
+            _ => continue,
+        };
+        if who != profile.walker() {
+            profile.next();
+        }
+        let tree = match catch(|| deep_es_tree(&mut profile, &members)) {
+            Some(Some(t)) => t,
+            other => { if std::env::var("VERIF_DEBUG").is_ok() { eprintln!("deep_es_tree: {}", if other.is_none() { "panic" } else { "too big" }); } continue; }
+        };
+        if std::env::var("VERIF_DEBUG").is_ok() {
+            let all = tree.all();
+            let maxd = all.iter().map(|n| n.history().len()).max().unwrap_or(0);
+            let deepw = all.iter().filter(|n| n.history().len() > 16 && n.player() == profile.walker() && n.children().len() > 0).count();
+            let mut g: std::collections::HashMap<String, usize> = Default::default();
+            for n in all.iter().filter(|n| n.player() == profile.walker() && n.children().len() > 0) { *g.entry(bkey(n.bucket())).or_default() += 1; }
+            let coll = g.values().filter(|c| **c >= 2).count();
+            let sample: Vec<String> = all.iter().filter(|n| n.history().len() > 16 && n.player() == profile.walker() && n.children().len() > 0).take(4).map(|n| format!("{} h={}", n.bucket(), n.history().iter().map(|e| edge_tok(e)).collect::<Vec<_>>().join(""))).collect();
+            eprintln!("deep_es_tree: {} nodes, max depth {}, walker nodes deeper than 16: {}, colliding buckets {} :: {:?}", all.len(), maxd, deepw, coll, sample);
+        }
+        let infos: Vec<Info> = Vec::<Info>::from(Partition::from(tree));
+        if !infos.iter().any(|i| i.roots().len() >= 2) {
+            continue;
+        }
+        multi += 1;
+        ntrees += 1;
+        let p = &profile;
+        let mut dumped: Vec<(Info, Vec<(String, u32)>, Vec<(String, u32)>)> = vec![];
+        for info in infos.iter() {
+            let r = catch(|| p.regret_vector(info));
+            let pv = catch(|| p.policy_vector(info));
+            let rv = r.as_ref().map(|m| m.iter().map(|(e, v)| (edge_tok(e), v.to_bits())).collect()).unwrap_or(vec![("P".into(), 0)]);
+            let pp = pv.as_ref().map(|m| m.iter().map(|(e, v)| (edge_tok(e), v.to_bits())).collect()).unwrap_or(vec![("P".into(), 0)]);
+            dumped.push((info.clone(), rv, pp));
+        }
+        if let Some(first) = infos.first() {
+            let any = first.node();
+            nnodes += any.graph().node_count() as u64;
+            let t = TreeView(any.graph());
+            out.line(&dump_view(&t, tree_walker(p), p, p.epochs(), false, &dumped).replacen(" | ", &format!(" {} | ", ntrees), 1));
+        }
+    }
     let lines = out.finish();
-    format!("{{\"lines\":{},\"trees\":{},\"nodes\":{}}}", lines, ntrees, nnodes)
+    format!("{{\"lines\":{},\"trees\":{},\"nodes\":{},\"trees_with_multi_node_infosets\":{},\"trees_sampled_to_find_them\":{}}}", lines, ntrees, nnodes, multi, tried)
 }
 
 // ---- a Tree is consumed by Partition::from; afterwards it is reachable only through the graph of its nodes
@@ -146,4 +205,131 @@ pub fn dump_view(t: &TreeView, walker: Player, profile: &Profile, epoch: usize, 
         toks.push(format!("I{}|{}|{}|{}", bkey(info.node().bucket()), roots, f(regrets), f(policy)));
     }
     format!("tree {} {} {} | {}", w, epoch, fresh as u8, toks.join(" "))
+}
+
+use robopoker::clustering::abstraction::Abstraction;
+use robopoker::gameplay::game::Game;
+use robopoker::mccfr::tree::{Branch, Tree};
+fn fixed_data(g: Game) -> Data {
+    Data::from((g, Abstraction::from((g.street(), 7))))
+}
+fn fixed_branches(node: &Node) -> Vec<Branch> {
+    node.branches().into_iter().map(|(e, g)| Branch(fixed_data(g), e, node.index())).collect()
+}
+/// search: a random line of 16 small-bet edges, everything three plies below it; two or more decision nodes of one
+/// player that share a Bucket and whose paths never ask the other player for two different actions at one node.
+/// Returns the members' full histories and the player.
+fn find_group(picks: &[u64]) -> Option<(Vec<Vec<Edge>>, Player)> {
+    let mut tree = Tree::empty(Player::default());
+    let mut head = tree.plant(fixed_data(Game::root())).index();
+    for k in 0..16 {
+        let mut brs: Vec<Branch> = { let node = tree.at(head); fixed_branches(&node) };
+        brs.retain(|b| !matches!(b.edge(), Edge::Fold | Edge::Shove));
+        if brs.is_empty() {
+            return None;
+        }
+        let mut raises: Vec<usize> = (0..brs.len()).filter(|i| matches!(brs[*i].edge(), Edge::Raise(_))).collect();
+        raises.sort_by(|a, b| match (brs[*a].edge(), brs[*b].edge()) {
+            (Edge::Raise(x), Edge::Raise(y)) => (x.0 as i64 * y.1 as i64).cmp(&(y.0 as i64 * x.1 as i64)),
+            _ => std::cmp::Ordering::Equal,
+        });
+        let passive: Vec<usize> = (0..brs.len()).filter(|i| !matches!(brs[*i].edge(), Edge::Raise(_))).collect();
+        let idx = if !raises.is_empty() && (picks[k] % 2 != 0 || passive.is_empty()) { raises[if picks[k] % 7 == 0 && raises.len() > 1 { 1 } else { 0 }] } else { passive[(picks[k] / 3) as usize % passive.len()] };
+        head = tree.fork(brs.swap_remove(idx)).index();
+    }
+    let mut frontier = vec![head];
+    let mut below = vec![];
+    for _ in 0..3 {
+        let mut next = vec![];
+        for h in frontier {
+            let brs = { let node = tree.at(h); fixed_branches(&node) };
+            for b in brs {
+                let c = tree.fork(b).index();
+                next.push(c);
+                below.push(c);
+            }
+        }
+        frontier = next;
+        if below.len() > 3000 { break; }
+    }
+    let mut groups: std::collections::BTreeMap<(String, String), Vec<petgraph::graph::NodeIndex>> = Default::default();
+    for c in below {
+        let node = tree.at(c);
+        if node.player() != Player::chance() && node.branches().len() > 1 {
+            groups.entry((bkey(node.bucket()), turn_code(node.data().game().turn()))).or_default().push(c);
+        }
+    }
+    for (_, members) in groups.iter().filter(|(_, m)| m.len() >= 2) {
+        let who = tree.at(members[0]).player();
+        // greedily keep members whose paths are compatible at the other player's nodes
+        let mut script: std::collections::HashMap<Vec<Edge>, Edge> = Default::default();
+        let mut kept: Vec<Vec<Edge>> = vec![];
+        for m in members {
+            let hist: Vec<Edge> = tree.at(*m).history().into_iter().copied().collect();
+            let mut add: Vec<(Vec<Edge>, Edge)> = vec![];
+            let mut ok = true;
+            let mut cur = tree.at(petgraph::graph::NodeIndex::new(0));
+            for (i, e) in hist.iter().enumerate() {
+                if cur.player() != who && cur.player() != Player::chance() {
+                    let key = hist[..i].to_vec();
+                    match script.get(&key) {
+                        Some(x) if x != e => { ok = false; break; }
+                        _ => add.push((key, *e)),
+                    }
+                }
+                cur = match cur.follow(e) { Some(n) => n, None => { ok = false; break; } };
+            }
+            if ok {
+                for (k, v) in add { script.insert(k, v); }
+                kept.push(hist);
+            }
+        }
+        if kept.len() >= 2 {
+            return Some((kept, who));
+        }
+    }
+    None
+}
+/// Blueprint::tree with the opponent's sampled action scripted: along the members' paths he plays what they need,
+/// anywhere else he gives up (fold, else check, else call)
+fn deep_es_tree(profile: &mut Profile, members: &[Vec<Edge>]) -> Option<Tree> {
+    let walker = profile.walker();
+    let chance = Player::chance();
+    let mut tree = Tree::empty(walker);
+    let mut todo: Vec<Branch> = {
+        let root = tree.plant(fixed_data(Game::root()));
+        let brs = fixed_branches(&root);
+        sample_es(profile, brs, &root, walker, chance, members)
+    };
+    while let Some(branch) = todo.pop() {
+        let node = tree.fork(branch);
+        let brs = fixed_branches(&node);
+        let children = sample_es(profile, brs, &node, walker, chance, members);
+        todo.extend(children);
+        if node.graph().node_count() > 60_000 {
+            return None;
+        }
+    }
+    Some(tree)
+}
+fn sample_es(profile: &mut Profile, mut brs: Vec<Branch>, node: &Node, walker: Player, chance: Player, members: &[Vec<Edge>]) -> Vec<Branch> {
+    if brs.is_empty() {
+        return vec![];
+    }
+    let p = node.player();
+    if p == chance {
+        profile.explore_any(brs, node)
+    } else if p == walker {
+        profile.witness(node, &brs);
+        profile.explore_all(brs, node)
+    } else {
+        profile.witness(node, &brs);
+        let hist: Vec<Edge> = node.history().into_iter().copied().collect();
+        let wanted = members.iter().find(|m| m.len() > hist.len() && m[..hist.len()] == hist[..]).map(|m| m[hist.len()]);
+        let idx = wanted
+            .and_then(|w| brs.iter().position(|b| *b.edge() == w))
+            .or_else(|| [Edge::Fold, Edge::Check, Edge::Call].iter().find_map(|w| brs.iter().position(|b| b.edge() == w)))
+            .unwrap_or(0);
+        vec![brs.swap_remove(idx)]
+    }
 }
